@@ -1248,7 +1248,9 @@ class TypeBlocks(ContainerOperand):
                     dtype = get_col_dtype(iloc)
                     if pos == 0:
                         dtype_last = dtype
-                    elif dtype != dtype_last:
+                    elif (dtype is None) != (dtype_last is None) or (
+                            dtype is not None and dtype != dtype_last):
+                        # NOTE: None must not be compared with a dtype: np.dtype(None) is the default float
                         # this dtype is different, so need to cast all up to (but not including) this one
                         if dtype_last is not None:
                             yield b[NULL_SLICE, slice(group_start, pos)].astype(dtype_last)
